@@ -1,0 +1,56 @@
+//! Verification hooks, only compiled with `--cfg koto_verif`
+//!
+//! A process-global hook that is called immediately before each lock acquisition made by the
+//! `arc` pointer implementation. A deterministic scheduler uses it as its scheduling point.
+//! Nothing in here is compiled in a default build.
+
+use std::sync::{
+    Arc, RwLock,
+    atomic::{AtomicBool, Ordering},
+};
+
+/// The kind of lock acquisition that is about to be attempted
+#[derive(Clone, Copy, Debug, PartialEq, Eq, Hash)]
+pub enum LockIntent {
+    /// A blocking shared borrow
+    Read,
+    /// A blocking exclusive borrow
+    Write,
+    /// A non-blocking shared borrow
+    TryRead,
+    /// A non-blocking exclusive borrow
+    TryWrite,
+}
+
+/// The hook's signature
+///
+/// - `addr` is the address of the lock
+/// - `can_read` / `can_write` report whether a shared / exclusive acquisition would currently
+///   succeed without blocking (the lock is released again immediately)
+pub type LockHook =
+    dyn Fn(usize, LockIntent, &dyn Fn() -> bool, &dyn Fn() -> bool) + Send + Sync + 'static;
+
+static ENABLED: AtomicBool = AtomicBool::new(false);
+static HOOK: RwLock<Option<Arc<LockHook>>> = RwLock::new(None);
+
+/// Installs (or removes) the process-global lock hook
+pub fn set_lock_hook(hook: Option<Arc<LockHook>>) {
+    let enabled = hook.is_some();
+    *HOOK.write().unwrap() = hook;
+    ENABLED.store(enabled, Ordering::SeqCst);
+}
+
+#[inline]
+pub(crate) fn lock_intent(
+    addr: usize,
+    intent: LockIntent,
+    can_read: &dyn Fn() -> bool,
+    can_write: &dyn Fn() -> bool,
+) {
+    if ENABLED.load(Ordering::Relaxed) {
+        let hook = HOOK.read().unwrap().clone();
+        if let Some(hook) = hook {
+            hook(addr, intent, can_read, can_write);
+        }
+    }
+}
